@@ -48,7 +48,11 @@ def task_specs(draw, layout, light=False, allow_bad=True, jsrun=False, heavy=Fal
     elif g:
         spec['gpus_per_rank'] = draw(st.sampled_from(GPU_SHARES))
         if jsrun and 0 < spec['gpus_per_rank'] < 1:
-            spec['gpus_per_rank'] = 1.0
+            # resource sets: several ranks share the GPUs of one set (1/2, 1/4 of a GPU per rank)
+            spec['gpus_per_rank'] = draw(st.sampled_from([0.5, 0.5, 0.25, 1.0]))
+            if spec['gpus_per_rank'] < 1:
+                k = int(round(1 / spec['gpus_per_rank']))
+                spec['ranks'] = max(k, (spec['ranks'] // k) * k) if spec['ranks'] > 0 else spec['ranks']
     elif draw(st.integers(0, 25)) == 0:
         spec['gpus_per_rank'] = 1.0
     if not light:
